@@ -439,3 +439,74 @@ Proof.
                       discriminate))) as R9 end.
   eexists. eexists. split; [exact R9 |]. split; reflexivity.
 Qed.
+
+Lemma ex_reachable_filled :
+  exists s u, reachable ex_src s /\ pcs s 0%nat = RDone 0 4 u /\ (forall x, 0 <= x < 4 -> filled s x = true).
+Proof.
+  pose (s0 := mkS (fun _ => false) (fun _ => 0) (fun _ => Idle)).
+  assert (R0 : reachable ex_src s0) by apply r_init.
+  assert (Hin : forall x, (0 <=? x) && (x <? 4) = true -> inr 0 4 x).
+  { intros x Hx. apply andb_true_iff in Hx. destruct Hx as [H1 H2]. apply Z.leb_le in H1. apply Z.ltb_lt in H2. unfold inr. lia. }
+  match type of R0 with reachable _ ?s =>
+    pose proof (r_step _ s _ R0 (s_start ex_src s 0%nat 0 4 eq_refl ltac:(lia) ltac:(lia))) as R1 end.
+  match type of R1 with reachable _ ?s =>
+    pose proof (r_step _ s _ R1 (s_rlock ex_src s 0%nat 0 4 eq_refl)) as R2 end.
+  match type of R2 with reachable _ ?s =>
+    pose proof (r_step _ s _ R2 (s_query_miss ex_src s 0%nat 0 4 0 4 eq_refl ltac:(lia) ltac:(intros x Hx _; exact Hx))) as R3 end.
+  match type of R3 with reachable _ ?s =>
+    pose proof (r_step _ s _ R3 (s_range_lock ex_src s 0%nat 0 4 0 4 eq_refl
+                ltac:(intros t' a' b' Hne H; destruct t'; [congruence | discriminate]))) as R4 end.
+  match type of R4 with reachable _ ?s =>
+    pose proof (r_step _ s _ R4 (s_src_read ex_src s 0%nat 0 4 0 4 ex_src eq_refl ltac:(intros; reflexivity))) as R5 end.
+  match type of R5 with reachable _ ?s =>
+    pose proof (r_step _ s _ R5 (s_copy ex_src s 0%nat 0 4 0 4 ex_src (fun x => (0 <=? x) && (x <? 4)) eq_refl
+                ltac:(intros x Hx; split; apply Hin; exact Hx))) as R6 end.
+  match type of R6 with reachable _ ?s =>
+    pose proof (r_step _ s _ R6 (s_inline ex_src s 0%nat 0 4 0 4 ex_src _ eq_refl)) as R7 end.
+  match type of R7 with reachable _ ?s =>
+    pose proof (r_step _ s _ R7 (s_inline_write ex_src s 0%nat 0 4 0 4 ex_src _ (fun x => (0 <=? x) && (x <? 4)) _ eq_refl
+                (conj Hin eq_refl))) as R8 end.
+  match type of R8 with reachable _ ?s =>
+    pose proof (r_step _ s _ R8 (s_rem_done ex_src s 0%nat 0 4 _ eq_refl
+                ltac:(intros x Hx; unfold inr in Hx; cbn beta;
+                      replace ((0 <=? x) && (x <? 4)) with true by (symmetry; apply andb_true_iff; split; [apply Z.leb_le | apply Z.ltb_lt]; lia);
+                      discriminate))) as R9 end.
+  eexists. eexists. split; [exact R9 |]. split; [reflexivity |].
+  intros x Hx. cbn [filled].
+  replace ((0 <=? x) && (x <? 4)) with true by (symmetry; apply andb_true_iff; split; [apply Z.leb_le | apply Z.ltb_lt]; lia).
+  reflexivity.
+Qed.
+
+(* ---------------------------------------------------------------- counterfactual *)
+(* If whole-file eviction did NOT take the rw lock exclusively (i.e. could run while a reader is
+   between its hole query and its media read), a read would return bytes that are not the source's.
+   This is the window the lock closes; the trace below is the witness in the weakened model. *)
+Inductive ustep (src : bytes) : state -> state -> Prop :=
+| u_step s s' : step src s s' -> ustep src s s'
+| u_evict s m' : ustep src s (mkS (fun _ => false) m' (pcs s)).
+
+Inductive ureachable (src : bytes) : state -> Prop :=
+| ur_init m : ureachable src (mkS (fun _ => false) m (fun _ => Idle))
+| ur_step s s' : ureachable src s -> ustep src s s' -> ureachable src s'.
+
+Lemma reach_ureach src s : reachable src s -> ureachable src s.
+Proof. induction 1; [apply ur_init | eapply ur_step; [eassumption | now apply u_step]]. Qed.
+
+Theorem unlocked_evict_refuted_proof :
+  exists s u, ureachable ex_src s /\ pcs s 0%nat = RDone 0 4 u /\ u 1 <> Some (ex_src 1).
+Proof.
+  destruct ex_reachable_filled as (s & u0 & Hr & Hpc & Hf).
+  pose proof (r_step _ s _ Hr (s_return ex_src s 0%nat (or_introl (ex_intro _ 0 (ex_intro _ 4 (ex_intro _ u0 Hpc)))))) as R10.
+  set (s1 := mkS (filled s) (media s) (upd (pcs s) 0%nat Idle)) in *.
+  pose proof (r_step _ s1 _ R10 (s_start ex_src s1 0%nat 0 4 eq_refl ltac:(lia) ltac:(lia))) as R11.
+  set (s2 := mkS (filled s1) (media s1) (upd (pcs s1) 0%nat (RStart 0 4))) in *.
+  pose proof (r_step _ s2 _ R11 (s_rlock ex_src s2 0%nat 0 4 eq_refl)) as R12.
+  set (s3 := mkS (filled s2) (media s2) (upd (pcs s2) 0%nat (RLocked 0 4))) in *.
+  pose proof (r_step _ s3 _ R12 (s_query_hit ex_src s3 0%nat 0 4 eq_refl ltac:(intros x Hx; unfold inr in Hx; apply Hf; lia))) as R13.
+  set (s4 := mkS (filled s3) (media s3) (upd (pcs s3) 0%nat (RHit 0 4))) in *.
+  apply reach_ureach in R13.
+  pose proof (ur_step _ s4 _ R13 (u_evict ex_src s4 (fun _ => 0))) as U14.
+  set (s5 := mkS (fun _ => false) (fun _ : Z => 0) (pcs s4)) in *.
+  pose proof (ur_step _ s5 _ U14 (u_step _ _ _ (s_media_read ex_src s5 0%nat 0 4 eq_refl))) as U15.
+  eexists. eexists. split; [exact U15 |]. split; [reflexivity |]. cbn. discriminate.
+Qed.
